@@ -446,8 +446,16 @@ def build_harness(profile='release', timeout=1200):
     return rc, out, binp, dt
 
 
+VH_TIMEOUTS = []   # harness commands that did not come back in time (a hang of the implementation or of the harness)
+
+
 def vh(binp, args, timeout=600, inp=None):
+    # once a harness command has hung, later ones get a short leash: the whole check must still end in reasonable time
+    if VH_TIMEOUTS:
+        timeout = min(timeout, 120)
     rc, out, dt = sh([binp] + [str(a) for a in args], timeout=timeout, inp=inp)
+    if rc == 124:
+        VH_TIMEOUTS.append({'command': 'vh ' + ' '.join(str(a) for a in args)[:300], 'timeout_s': timeout})
     return rc, out
 
 
@@ -495,6 +503,10 @@ class Report:
         self.violations.append({'what': what, 'replay': replay})
 
     def finish(self):
+        for t in VH_TIMEOUTS:
+            # never silent: a harness command that does not come back means the implementation (or the harness) hangs on one of
+            # the generated inputs -- nothing this check says after that is complete
+            self.add_broken('harness-timeout', t['command'], 'no answer within %d s' % t['timeout_s'])
         """Print KNOWN-FINDING / VIOLATION lines, write evidence, return exit code."""
         lines = []
         n = 0
